@@ -194,19 +194,24 @@ Section Record12.
     | None => None
     end.
 
-  (* RecordLayer.Marshal: ContentLen := uint16(len(content)), ContentType := content's type *)
-  Definition record_marshal (x : hdr * content H) : option bytes :=
+  (* RecordLayer.Marshal: ContentType := content's type, ContentLen := len(content), refused
+     (ErrRecordTooLong, since 9ff70b9) when that does not fit 16 bits.  [wrap = true] is the
+     encoder as coded before that commit: ContentLen := uint16(len(content)), i.e. modulo 65536. *)
+  Definition record_marshal_gen (wrap : bool) (x : hdr * content H) : option bytes :=
     let '(h, c) := x in
     match content_enc c with
     | Some ce =>
-        let h' := mk_hdr (content_type c) (h_maj h) (h_min h) (h_epoch h) (h_seq h) (h_cid h)
-                         (len ce mod 65536) in
-        match enc (c_header (length (h_cid h))) h' with
-        | Some he => Some (he ++ ce)
-        | None => None
-        end
+        if negb wrap && (65535 <? len ce) then None
+        else
+          let h' := mk_hdr (content_type c) (h_maj h) (h_min h) (h_epoch h) (h_seq h) (h_cid h)
+                           (len ce mod 65536) in
+          match enc (c_header (length (h_cid h))) h' with
+          | Some he => Some (he ++ ce)
+          | None => None
+          end
     | None => None
     end.
+  Definition record_marshal : hdr * content H -> option bytes := record_marshal_gen false.
 
   (* the domain on which the record round-trips as a value *)
   Definition record_wf (x : hdr * content H) : bool :=
